@@ -241,7 +241,7 @@ class Tokenizer:
                             value = self.unicodesub(
                                 _repl_comment if name == 'COMMENT' else _repl, value
                             )
-                            if name != 'COMMENT' and '\\' in value:
+                            if '\\' in value:
                                 # a backslash in front of a non-ASCII character
                                 # escapes nothing: kept, the character would be
                                 # lost when it has to be written as hex escape
